@@ -47,6 +47,7 @@ KINDS = {
     "badgroup": "(Blue, (Zzq))",
     "badkey": "n/a",      # in a categorical column: a cell that is not a key of the sidecar (column-structure issue)
 }
+ROW_LEVEL_TOO = ()       # codes that a cell check and a row check can both produce (none with this cell alphabet)
 TEMPORAL_TAGS = ("onset", "offset", "inset", "delay/", "duration/")
 UNIT_SPELLINGS = ["1 s", "1 Seconds", "1 second", "1000 ms", "1 SECONDS", "1000 milliseconds", "0.001 ks"]
 
@@ -74,6 +75,18 @@ class Env:
                 issues = self.validator.run_basic_checks(self.HedString(text, self.schema), allow_placeholders=False)
                 r = tuple(sorted(i["code"] for i in issues if i["severity"] == ERR))
             self.bcache[text] = r
+        return r
+
+    def basic_all_codes(self, text):
+        """Codes of every severity the per-cell checks give for a cell text."""
+        r = self.bcache.get(("all", text))
+        if r is None:
+            if text in ("", "n/a"):
+                r = frozenset()
+            else:
+                issues = self.validator.run_basic_checks(self.HedString(text, self.schema), allow_placeholders=False)
+                r = frozenset(i["code"] for i in issues)
+            self.bcache[("all", text)] = r
         return r
 
     def string_codes(self, text):
@@ -204,6 +217,25 @@ def check_file(env, rec, rows, columns, onsets, label):
                 if col not in cols_with_unknown:
                     rec.violation(f"C07:wrong-column-label:{label}", file=tsv, row=r, column=col, expected_in=cols_with_unknown)
                     return issues
+    # true locations: an issue of a cell check names a column whose cell gives that code on its own; an issue of the
+    # assembled row / of the file (row-level, temporal, order) names no column; file-level order warnings name no row
+    for iss in issues:
+        code, r, col = iss["code"], iss.get("ec_row"), iss.get("ec_column")
+        if code == "SIDECAR_KEY_MISSING":
+            continue
+        if code == "ONSETS_UNORDERED":
+            if r is not None or col is not None:
+                rec.violation(f"C07:file-level-issue-carries-location:{label}", file=tsv, code=code, row=r, column=col)
+                return issues
+            continue
+        if r not in exp:
+            continue
+        row = rows[r - 2]
+        cand = [c for c, k in zip(columns, row) if k not in ("na", "badkey") and code in env.basic_all_codes(KINDS[k])]
+        if (col is not None and col not in cand) or (col is None and cand and code not in ROW_LEVEL_TOO):
+            rec.violation(f"C07:issue-column-label-wrong:{'row-level' if not cand else 'cell-level'}:{label}", file=tsv,
+                          code=code, row=r, column=col, columns_whose_cell_gives_it=cand)
+            return issues
     # column-structure issues: one SIDECAR_KEY_MISSING per unknown categorical key, on its file row and column
     want_keys = sorted((i + 2, c) for i, r in enumerate(rows) for c, k in zip(columns, r) if k == "badkey" and c != "HED")
     got_keys = sorted((i.get("ec_row"), i.get("ec_column")) for i in issues if i["code"] == "SIDECAR_KEY_MISSING")
